@@ -100,3 +100,55 @@ Definition part_memos_b (tbl : gmap N sector) (p : partition) : bool :=
   && pp_eqb (unproven_power p) (sum_over tbl (unproven p))
   && pp_eqb (p_faulty_power p) (sum_over tbl (faults p))
   && pp_eqb (recovering_power p) (sum_over tbl (recoveries p)).
+
+(* ---------- histories ---------- *)
+Definition next (st : state) (o : op) : state := fst (fst (step st o)).
+Definition run (st : state) (ops : list op) : state := fold_left next ops st.
+(* every operation's caller obligation holds at the state where it is applied *)
+Fixpoint all_wf (st : state) (ops : list op) : Prop :=
+  match ops with
+  | [] => True
+  | o :: r => op_wf st o /\ all_wf (next st o) r
+  end.
+
+(* the power delta the partition's caller forwards to the power actor for each operation
+   (deadline_state.rs / lib.rs: terminate and expiry subtract the removed active power,
+   sectors added unproven contribute nothing until activate_unproven) *)
+Definition step_delta (st : state) (o : op) : pp :=
+  let qs := st_q st in
+  let tbl := st_tbl st in
+  let p := st_part st in
+  match o with
+  | AddSectors proven secs =>
+      match p_add_sectors qs p proven secs with
+      | Ok (_, pw, _) => if proven then pw else pp0
+      | Err _ => pp0
+      end
+  | RecordFaults nums fe =>
+      match p_record_faults qs tbl p (lset nums) fe with Ok (_, _, d, _) => d | Err _ => pp0 end
+  | DeclareFaultsRecovered _ => pp0
+  | RecoverFaults =>
+      match p_recover_faults qs tbl p with Ok (_, pw) => pw | Err _ => pp0 end
+  | ActivateUnproven => snd (p_activate_unproven p)
+  | RecordSkippedFaults fe skipped =>
+      match p_record_skipped_faults qs tbl p fe (lset skipped) with
+      | Ok (_, d, _, _, _) => d | Err _ => pp0 end
+  | RecordMissedPost fe =>
+      match p_record_missed_post qs p fe with Ok (_, d, _, _) => d | Err _ => pp0 end
+  | TerminateSectors epoch nums =>
+      match p_terminate_sectors qs tbl p epoch (lset nums) with
+      | Ok (_, removed, _) => pp_neg (active_power removed) | Err _ => pp0 end
+  | PopExpiredSectors until =>
+      match p_pop_expired_sectors p until with
+      | Ok (_, popped) => pp_neg (active_power popped) | Err _ => pp0 end
+  | ReplaceSectors old new =>
+      match load_sectors tbl (lset old) with
+      | Err _ => pp0
+      | Ok old_infos =>
+          match p_replace_sectors qs p old_infos new with Ok (_, d, _, _) => d | Err _ => pp0 end
+      end
+  | RescheduleExpirations _ _ => pp0
+  | PopEarlyTerminations _ => pp0
+  end.
+
+Definition st_credited (st : state) : pp := credited (st_tbl st) (st_part st).
